@@ -299,6 +299,11 @@ class ResNetwork(GeoNetwork):
         if not isinstance(resistances, np.ndarray):
             resistances = np.array(resistances)
 
+        # refuse a matrix of another size before anything is changed
+        if resistances.shape != (self.N, self.N):
+            raise ValueError("resistances must be a square matrix with one "
+                             "row and column per node!")
+
         # check complex/real
         self.flagComplex = np.iscomplexobj(resistances)
 
